@@ -64,6 +64,35 @@ for prios in itertools.permutations([3, 1, 2, -100.5]):
         if stop_at is not None: exp = exp[:stop_at + 1]
         if calls != exp:
             bad.append('handler priorities %r stop after #%r: ran %r expected %r' % (prios, stop_at, calls, exp))
+# one event fired to SEVERAL channels: the handlers of all the channels together run in descending priority, stop() cuts the rest
+class Sub(Component):
+    pass
+for layout in itertools.permutations([(5, 'a'), (1, 'a'), (3, 'b'), (2.5, 'b'), (4, 'c')], 5):
+    if layout[0][0] not in (5, 3, 4):       # sample: three different registration orders are enough per stop position
+        continue
+    for stop_pr in (None, 3, 4):
+        calls = []
+        root_ = Sub()
+        comps = {ch: Sub(channel=ch).register(root_) for ch in 'abc'}
+        for pr, ch in layout:
+            def mk(pr=pr, ch=ch):
+                def h(self, event):
+                    calls.append(pr)
+                    if pr == stop_pr:
+                        event.stop()
+                h.__name__ = 'h_%s_%s' % (ch, str(pr).replace('.', '_'))
+                return handler('multi', priority=pr)(h)
+            comps[ch].addHandler(mk())
+        class multi(Event): pass
+        while len(root_): root_.flush()
+        del calls[:]
+        root_.fire(multi(), 'a', 'b', 'c'); root_.flush()
+        exp = sorted([pr for pr, ch in layout], reverse=True)
+        if stop_pr is not None: exp = exp[:exp.index(stop_pr) + 1]
+        if calls != exp:
+            bad.append('event fired to channels a, b, c; handler priorities %r, stop() in %r: ran %r, expected %r' % (layout, stop_pr, calls, exp))
+            break
+    if bad: break
 # fire() never runs a handler re-entrantly
 ran = []
 class App3(Component):
